@@ -35,6 +35,15 @@ pub fn generate(out: &mut Out, rng: &Prng, thorough: bool) {
         };
         // own clock is poor so that any qualified master wins
         emit(out, &mut ex, format!("INIT {} 255 255 0 0 0 0 255 254 65535 - 0 0 0 1 160", hex(&own)));
+        // one scenario in four: the port under test is port 2 of its instance, and port 1 of the same instance is heard
+        // on its segment every announce interval (a sibling: its Announces are never stored, they only keep the port
+        // from being Master). Everything about the foreign masters must be as without the sibling.
+        let sibling = rng.chance(1, 4);
+        if sibling {
+            emit(out, &mut ex, "PORT - 0 0 0 3 0 0 0 1".to_string());
+        }
+        let tp: usize = if sibling { 2 } else { 1 };
+        let mut sib_seq: u16 = rng.next_u64() as u16;
         emit(out, &mut ex, "PORT - 0 0 0 3 0 0 0 1".to_string());
         if rpi_log < 0 {
             emit(out, &mut ex, format!("PORT - 0 0 {rpi_log} 3 0 1 0 1"));
@@ -43,14 +52,18 @@ pub fn generate(out: &mut Out, rng: &Prng, thorough: bool) {
         let wrap_start = *rng.pick(&[5u16, 65530, 32760, 0]);
         let mut seqs: Vec<u16> = (0..nm).map(|i| wrap_start.wrapping_add(100 * i as u16)).collect();
         let steps_of: Vec<u16> = (0..nm).map(|_| *rng.pick(&[0u16, 0, 1, 3, 254, 255, 300])).collect();
-        let own_identity_master = rng.chance(1, 6); // master 0 bears our clock identity …
+        let own_identity_master = !sibling && rng.chance(1, 6); // master 0 bears our clock identity …
         // … as another port of this very instance would (its Announces coming back over the network), or as a
         // reflection of this port's own
         let own_src_port = *rng.pick(&[1u16, 2, 2, 7]);
         let prio: Vec<u8> = (0..nm).map(|i| 10 + i as u8).collect(); // master 0 is the best
         let mut hist: Vec<Hist> = (0..nm).map(|_| Hist { receipts: vec![] }).collect();
         let pattern: Vec<u8> = (0..nm).map(|_| rng.below(4) as u8).collect(); // 0 steady, 1 sparse, 2 silent after a while, 3 bursty
-        let order = if rpi_log < 0 { "1,2" } else { "1" };
+        let order = match (rpi_log < 0, sibling) {
+            (false, false) => "1",
+            (true, true) => "1,2,3",
+            _ => "1,2",
+        };
         let mut tick = 0u32; // BMCA runs so far
         let silent_from = 4 + rng.below(6) as u32;
         let mut was_slave_of: Option<usize> = None;
@@ -80,7 +93,16 @@ pub fn generate(out: &mut Out, rng: &Prng, thorough: bool) {
                     }
                 }
             }
+            let sib_phase = rng.below(runs_per_interval as u64) as u32;
             for phase in 0..runs_per_interval {
+                if sibling && phase == sib_phase {
+                    sib_seq = sib_seq.wrapping_add(1);
+                    let mut f = Frame::announce(own, 1, sib_seq);
+                    f.set_announce(&AnnounceFields { utc: 0, p1: 255, class: 255, acc: 0xfe, var: 0xffff, p2: 255, gm: own, steps: 0, time_source: 0xa0 });
+                    f.flags[1] = 0x08;
+                    emit(out, &mut ex, format!("P{tp} GEN {}", hex(&f.bytes())));
+                    out.count("fml.sibling-announces");
+                }
                 for &(ph, mi, seq, _) in events.iter().filter(|e| e.0 == phase) {
                     let _ = ph;
                     let clock = if own_identity_master && mi == 0 { own } else { id(mi as u8 + 1) };
@@ -88,7 +110,7 @@ pub fn generate(out: &mut Out, rng: &Prng, thorough: bool) {
                     let mut f = Frame::announce(clock, src_port, seq);
                     f.set_announce(&AnnounceFields { utc: 0, p1: prio[mi], class: 6, acc: 0x20, var: 1, p2: 1, gm: clock, steps: steps_of[mi], time_source: 0x20 });
                     f.flags[1] = 0x08;
-                    emit(out, &mut ex, format!("P1 GEN {}", hex(&f.bytes())));
+                    emit(out, &mut ex, format!("P{tp} GEN {}", hex(&f.bytes())));
                     hist[mi].receipts.push((tick, seq, steps_of[mi]));
                     out.count("fml.announces");
                 }
@@ -96,7 +118,7 @@ pub fn generate(out: &mut Out, rng: &Prng, thorough: bool) {
                 tick += 1;
                 out.count("fml.bmca");
                 // ---- oracle on the implementation's own observation
-                let st = obs.split(" | ").find(|p| p.starts_with("S ")).map(|p| p[2..].split(',').next().unwrap_or("").to_string()).unwrap_or_default();
+                let st = obs.split(" | ").find(|p| p.starts_with("S ")).map(|p| p[2..].split(',').nth(tp - 1).unwrap_or("").to_string()).unwrap_or_default();
                 let parent = obs.split(" | ").find(|p| p.starts_with("D ")).and_then(|p| p.split_whitespace().nth(2).map(|x| x.to_string())).unwrap_or_default();
                 let slave_of = if st == "Slave" { (0..nm).find(|&mi| { let (c, sp) = if own_identity_master && mi == 0 { (own, own_src_port) } else { (id(mi as u8 + 1), 1) }; parent == format!("{}:{sp}", hex(&c)) }) } else { None };
                 out.count(&format!("fml.state.{st}"));
